@@ -497,6 +497,8 @@ def run(ctx):
     check.pmap(ctx, 'props.c15', 'one', list(range(n)), case_timeout=240 if ctx.quick else 1200)
     # correspondence with the Lean model of the call layer of moment / accumulate (PGModel/Api.lean, driver command `api`)
     check.pmap(ctx, 'props.corr_models', 'one_api', list(range(200, 216 if ctx.quick else 320)), case_timeout=300)
+    # ... and of the memo keys (PGModel/Memo.lean, driver command `memo`): colliding candidates asked one after the other
+    check.pmap(ctx, 'props.corr_models', 'one_memo', list(range(300, 312 if ctx.quick else 400)), case_timeout=600)
 
 
 def replay(ctx, payload):
